@@ -591,8 +591,8 @@ fn trunc(s: &str, n: usize) -> String {
 
 fn budget(t: Tier) -> u64 {
     match t {
-        Tier::Quick => 260,
-        Tier::Thorough => 6000,
+        Tier::Quick => simcore::scaled(260),
+        Tier::Thorough => simcore::scaled(6000),
     }
 }
 
